@@ -7,7 +7,7 @@ the property statement over the abstract tree of contracts/etree_model.py.
 import z3
 
 from pyvc.contracts import FnContract, LoopSpec, Raises
-from pyvc.values import NONE, VBool, VExt, VInt, VNoneT, VRef, VSeq, VStr, VTuple, VUnk, ext_sort, fresh_name
+from pyvc.values import NONE, VBool, VBytes, VExt, VInt, VNoneT, VRef, VSeq, VStr, VTuple, VUnk, ext_sort, fresh_name
 from pyvc.verify import Maker, p_bool, p_int, p_obj, p_opt, p_str
 
 from contracts import c02_exec as X
@@ -298,7 +298,7 @@ def odf_contracts(reg):
             elif _is_strlist(st0, v):
                 layout[n] = "acc"
             elif isinstance(v, VTuple):
-                layout[n] = ("tuple", [role(x) for x in v.items])
+                layout[n] = ("tuple", [role(x) for x in v.items], getattr(v, "names", None), getattr(v, "cls", None))     # a NamedTuple keeps its field names
             elif isinstance(v, VRef) and st0.obj(v.ref).kind == "obj":
                 o = st0.obj(v.ref)
                 layout[n] = ("obj", o.cls, {f: role(x) for f, x in o.data.items()})
@@ -335,9 +335,15 @@ def odf_contracts(reg):
         if l == "acc":
             return p_strlist()
         if l[0] == "tuple":
-            kinds = list(l[1])
-            return Maker(lambda ex, st, nm: VTuple([(VExt("StrSet", z3.Const(f"{nm}.{i}", STRSET)) if r == "skip_tags" else VStr(z3.String(f"{nm}.{i}")))
-                                                    for i, r in enumerate(kinds)]), desc="tuple of configuration values")
+            kinds, names, ncls = list(l[1]), (l[2] if len(l) > 2 else None), (l[3] if len(l) > 3 else None)
+
+            def mk_tuple(ex, st, nm):
+                items = [(VExt("StrSet", z3.Const(f"{nm}.{i}", STRSET)) if r == "skip_tags" else VStr(z3.String(f"{nm}.{i}"))) for i, r in enumerate(kinds)]
+                if names is not None:
+                    from pyvc.values import VNamedTuple
+                    return VNamedTuple(items, names, ncls)
+                return VTuple(items)
+            return Maker(mk_tuple, desc="tuple of configuration values")
         if l[0] == "val":
             return p_strset() if l[1] == "skip_tags" else (p_str() if l[1] else Maker(lambda ex, st, nm: VUnk(nm), desc="any"))
         return p_obj(l[1], {f: (p_strset() if r == "skip_tags" else p_str()) for f, r in l[2].items()})
@@ -1461,6 +1467,7 @@ FUNC_OF_CHECK = {
     "epub.tables": "epub_extractor.py::read_epub.iterate_tables",
     "odp.tables": "odp_extractor.py::read_odp.iterate_tables",
     "epub.source": "epub_extractor.py::read_epub",
+    "rtf.unicode": "rtf_extractor.py::_decode_unicode_run",
 }
 
 
@@ -1587,6 +1594,66 @@ def _idset_names(loop):
                 and isinstance(x.left, ast.Call) and isinstance(x.left.func, ast.Name) and x.left.func.id == "id":
             out.add(x.comparators[0].id)
     return sorted(out)
+
+
+def _fragment_hosts(mod, fnode, depth=2):
+    """`fnode` and the module-level functions it calls by plain name (transitively, `depth` levels), in call order."""
+    import ast
+    out, seen, level = [fnode], {fnode.name}, [fnode]
+    for _ in range(depth):
+        nxt = []
+        for f in level:
+            for c in ast.walk(f):
+                if isinstance(c, ast.Call) and isinstance(c.func, ast.Name) and c.func.id not in seen and c.func.id in mod.functions:
+                    seen.add(c.func.id)
+                    nxt.append(mod.functions[c.func.id])
+        out += nxt
+        level = nxt
+    return out
+
+
+def _state_threaded(caller, helper, objs, flags):
+    """A loop that lives in `helper` keeps the meaning it had inline only if the state it works on is the caller's: the
+    objects `objs` (mutated in place) and the scalars `flags` (updated by assignment) must be parameters of the helper, every
+    call passes plain names, and every flag comes back: the helper returns it on every path and each call site stores the
+    result in the very name it passed.  Returns None when that is so, else the reason (the caller reports `unknown`)."""
+    import ast
+    a = helper.args
+    if a.vararg or a.kwarg:
+        return "star parameters"
+    params = [x.arg for x in a.posonlyargs + a.args + a.kwonlyargs]
+    for n in list(objs) + list(flags):
+        if n not in params:
+            return f"{n} is not a parameter"
+    if len(flags) > 1:
+        return "more than one flag"
+    own = [x for x in ast.walk(helper) if isinstance(x, (ast.FunctionDef, ast.AsyncFunctionDef, ast.Lambda)) and x is not helper]
+    inner = {id(y) for f in own for y in ast.walk(f)}
+    rets = [x for x in ast.walk(helper) if isinstance(x, ast.Return) and id(x) not in inner]
+    if any(isinstance(x, (ast.Yield, ast.YieldFrom)) for x in ast.walk(helper)):
+        return "generator"
+    if flags:
+        if not rets or not isinstance(helper.body[-1], ast.Return):
+            return "flag not returned at the end"
+        if any(not (isinstance(r.value, ast.Name) and r.value.id == flags[0]) for r in rets):
+            return "a return does not give the flag back"
+    calls = [c for c in ast.walk(caller) if isinstance(c, ast.Call) and isinstance(c.func, ast.Name) and c.func.id == helper.name]
+    if not calls:
+        return "not called directly"
+    stored = {id(s.value): s for s in ast.walk(caller) if isinstance(s, ast.Assign) and len(s.targets) == 1 and isinstance(s.targets[0], ast.Name)}
+    for c in calls:
+        if any(isinstance(x, ast.Starred) for x in c.args) or any(k.arg is None for k in c.keywords):
+            return "star arguments"
+        bound = dict(zip([x.arg for x in a.posonlyargs + a.args], c.args))
+        bound.update({k.arg: k.value for k in c.keywords})
+        for n in list(objs) + list(flags):
+            if not isinstance(bound.get(n), ast.Name):
+                return f"argument for {n} is not a plain name"
+        for fl in flags:
+            s = stored.get(id(c))
+            if s is None or s.targets[0].id != bound[fl].id:
+                return "flag result not stored back into the name that was passed"
+    return None
 
 
 def fragment_obligations(repo, tier):
@@ -1830,22 +1897,31 @@ def odp_fragment(repo, reg, uni, pre):
     fnode = mod.functions.get(fname)
     if fnode is None:
         return {"obligations": _unknown(pre, ODP_BLOCK_IDS, "function not found", fq)}
-    loops = _iter_p_loops(fnode)
-    loops = [(n, st) for n, st in loops if not any(m is not n and m in list(ast.walk(n)) for m, _s in loops)]      # innermost only
+    # the paragraph loops of the slide assembly: in the function itself or in a module-level helper it calls (the loop of one
+    # text box / of the notes extracted into a function of its own is the same fragment, executed in the helper's frame)
+    loops = []
+    for host in _fragment_hosts(mod, fnode):
+        loops += [(n, st, host) for n, st in _iter_p_loops(host)]
+    loops = [(n, st, h) for n, st, h in loops if not any(m is not n and m in list(ast.walk(n)) for m, _s, _h in loops)]      # innermost only
     owners = lambda stores: {x.split(".")[0] for x in stores if "." in x and x.split(".", 1)[1] in ("body_text", "other_text", "title", "notes")}
-    text_loops = [(n, owners(st)) for n, st in loops if any(x.endswith((".body_text", ".other_text", ".title")) for x in st)]
-    note_loops = [(n, owners(st)) for n, st in loops if any(x.endswith(".notes") for x in st) and not any(x.endswith((".body_text", ".other_text", ".title")) for x in st)]
-    if len(text_loops) != 1 or len(note_loops) != 1 or len(text_loops[0][1]) != 1:
+    text_loops = [(n, owners(st), h) for n, st, h in loops if any(x.endswith((".body_text", ".other_text", ".title")) for x in st)]
+    note_loops = [(n, owners(st), h) for n, st, h in loops if any(x.endswith(".notes") for x in st) and not any(x.endswith((".body_text", ".other_text", ".title")) for x in st)]
+    if len(text_loops) != 1 or len(note_loops) != 1 or len(text_loops[0][1]) != 1 or len(note_loops[0][1]) != 1:
         return {"obligations": _unknown(pre, ODP_BLOCK_IDS, f"{len(text_loops)} text loop(s), {len(note_loops)} notes loop(s)", fq)}
-    slide_name = next(iter(text_loops[0][1]))
     obls = []
-    for kind, loop in (("slide-text", text_loops[0][0]), ("speaker-notes", note_loops[0][0])):
+    for kind, (loop, own, host) in (("slide-text", text_loops[0]), ("speaker-notes", note_loops[0])):
+        slide_name = next(iter(own))
         labels = [l for l in ODP_BLOCK_IDS if l.startswith(kind + ".")]
         flags = _flag_names(loop)
         if kind == "slide-text" and len(flags) != 1:
             obls += _unknown(pre, labels, f"title flag not recognised ({flags})", fq)
             continue
         flag_name = flags[0] if flags else None
+        if host is not fnode:
+            why = _state_threaded(fnode, host, [slide_name], [flag_name] if flag_name else [])
+            if why:
+                obls += _unknown(pre, labels, f"paragraph loop in helper {host.name}: {why}", fq)
+                continue
         ex = EXECUTOR(mod, reg, uni)
         ex.oid_prefix = "C02/odp_extractor.py::_extract_slide"
         st = State()
@@ -1865,9 +1941,9 @@ def odp_fragment(repo, reg, uni, pre):
             env[flag_name] = VBool(found)
         for nm in _idset_names(loop):           # the set of identities the enclosing code computed (comment paragraphs)
             env.setdefault(nm, ids)
-        st.frames = [Frame(env, None, fnode)]
+        st.frames = [Frame(env, None, host)]
         st.assume(found == (title != lit("")))
-        ex.cur_fn_stack.append(fnode)
+        ex.cur_fn_stack.append(host)
         ex.sinks.append([])
         try:
             outs = ex.exec_block(loop.body, st)
@@ -2018,7 +2094,511 @@ def pptx_fragment(repo, reg, uni, pre):
     return {"obligations": obls, "functions": [dict(mod.fn_info(fname), obligations=len(obls))]}
 
 
-EXTRA = [bounded_native, fragment_obligations]
+# =====================================================================================
+# Empty-element tags (`<x/>`) of the two HTMLParser subclasses (html tree builder, epub chapter walker).
+#
+# Statement: an empty element has no content, so it cannot change what happens to the text that FOLLOWS it: after
+# handle_startendtag the removed-markup state is what it was (skip depth unchanged: `<script src=".."/>` must not swallow the
+# rest of the document) and no data context has been opened by it (epub: title / table-cell flags are not switched on).
+# The function under contract is the one that RUNS: the class's own override when it has one, else the definition it
+# inherits from html.parser.HTMLParser (read from the interpreter's own source); the start / end handlers it calls are
+# executed in place (their bodies, not their contracts).
+# =====================================================================================
+EMPTY_ELEMENT_IDS = ["ensures#empty-element-leaves-the-removed-markup-state-as-it-was", "ensures#empty-element-opens-no-data-context"]
+
+
+def empty_element_obligations(repo, tier):
+    import ast
+    import copy
+    import inspect
+    import textwrap
+    from html.parser import HTMLParser
+    from pyvc import loader, verify
+    from pyvc.contracts import Registry
+    from pyvc.exctypes import Universe
+    C = _C17
+    obls, fns = [], []
+    for rel, cls, flags_of in ((C.EPUB, C.ECLS, lambda: [epub_roles()[k] for k in ("in_title", "in_cell")]), (HTML, C.HCLS, lambda: [])):
+        short = rel.split("/")[-1]
+        pre = f"C02/{short}::{cls}.handle_startendtag/"
+        fq = f"{rel}::{cls}.handle_startendtag"
+        try:
+            reg = Registry()
+            for c in contracts(reg):
+                reg.add(c)
+            mod = loader.module(rel, repo)
+            cnode = next((n for n in ast.walk(mod.tree) if isinstance(n, ast.ClassDef) and n.name == cls), None) if hasattr(mod, "tree") else None
+            fnode = mod.functions.get(f"{cls}.handle_startendtag")
+            if fnode is None:
+                bases = [ast.unparse(b) for b in cnode.bases] if cnode is not None else None
+                if bases is None or any(b.rsplit(".", 1)[-1] != "HTMLParser" for b in bases):
+                    raise X.Unsupported(f"bases of {cls} not recognised ({bases})")
+                fnode = ast.parse(textwrap.dedent(inspect.getsource(HTMLParser.handle_startendtag))).body[0]
+            start = reg.get(f"{rel}::{cls}.handle_starttag")
+            if start is None:
+                raise X.Unsupported("start-tag handler has no contract to take the receiver from")
+            reg2 = copy.copy(reg)
+            reg2.fn = {k: v for k, v in reg.fn.items() if not k.startswith(f"{rel}::{cls}.handle_")}       # handlers run in place
+            try:
+                flags = flags_of()
+            except X.Unsupported:
+                flags = None
+
+            def fld(st, c, f):
+                return st.obj(c.args["self"].ref).data[f]
+
+            depth = C.need(rel, cls, repo, "depth")["depth"]          # the counter, by role (a renamed field re-verifies)
+
+            def depth_kept(c, depth=depth):
+                a, b = fld(c.entry, c, depth), fld(c.st, c, depth)
+                if not (isinstance(a, VInt) and isinstance(b, VInt)):
+                    raise X.Unsupported("skip depth is not an int")
+                return b.t == a.t
+
+            def no_context(c, flags=flags):
+                if flags is None:
+                    raise X.Unsupported("roles")
+                out = []
+                for f in flags:
+                    a, b = fld(c.entry, c, f), fld(c.st, c, f)
+                    if not (isinstance(a, VBool) and isinstance(b, VBool)):
+                        raise X.Unsupported(f"{f} is not a bool")
+                    out.append(z3.Implies(b.t, a.t))
+                return z3.And(out + [z3.BoolVal(True)])
+            con = FnContract(target=fq, params=[("self", start.params[0][1])] + [(a.arg, m) for a, (_n, m) in zip(fnode.args.args[1:], start.params[1:])],
+                             requires=lambda c, depth=depth: fld(c.st, c, depth).t >= 0,
+                             ensures=[(EMPTY_ELEMENT_IDS[0].split("#")[1], X.robust(depth_kept)), (EMPTY_ELEMENT_IDS[1].split("#")[1], X.robust(no_context))],
+                             modifies=("self",), raises=[Raises("Exception", sub=True)])
+            if len(fnode.args.args) != 3 or fnode.args.args[0].arg != "self":
+                raise X.Unsupported("signature of handle_startendtag not recognised")
+            con.params[0] = (fnode.args.args[0].arg, con.params[0][1])
+            ex = EXECUTOR(mod, reg2, Universe(repo))
+            ex.contract = con
+            ex.oid_prefix = pre[:-1]
+            got, _cov = verify.generate(ex, con, mod, fnode)
+            mine = [dict(verify.discharge(ob, None, getattr(ex, "witness_terms", {})), function=fq) for ob in got.values()]
+            mine = [o for o in mine if o["id"].split("/")[-1] in EMPTY_ELEMENT_IDS]
+            for o in mine:
+                o["kind"] = "ensures"
+            obls += mine
+            have = {o["id"] for o in mine}
+            obls += _unknown(pre, [l for l in EMPTY_ELEMENT_IDS if pre + l not in have], "no verification condition for this clause", fq)
+            fns.append({"function": fq, "obligations": len(EMPTY_ELEMENT_IDS)})
+        except Exception as e:  # noqa  (unrecognised shape / outside the subset: undecided, the native replayer decides)
+            obls += _unknown(pre, EMPTY_ELEMENT_IDS, f"{type(e).__name__}: {e}", fq)
+    return {"obligations": obls, "functions": [], "undecided": []}
+
+
+# =====================================================================================
+# RTF \\uN escape runs  --  rtf_extractor.py::_decode_unicode_run  (used by both strippers)
+#
+# Statement: the values N of consecutive \\uN escapes are signed 16-bit UTF-16 code units (RTF 1.9).  With u_i = N_i mod 2^16:
+#   text([])            = ""
+#   text(h, l, rest..)  = chr(0x10000 + (h - 0xD800) * 0x400 + (l - 0xDC00)) ++ text(rest)   h high surrogate, l low surrogate
+#   text(u, rest..)     = U+FFFD ++ text(rest)                                                u a surrogate without partner
+#   text(u, rest..)     = chr(u) ++ text(rest)                                                otherwise
+# -- one character per pair: a character beyond the BMP is not lost and nothing that is not in the source appears.
+# Contract: result == text(units of the run), for runs of 0..3 escapes with ARBITRARY values (every window the definition
+# looks at is covered; the count is the bound, stated in the id).  Assumed models: the pattern's findall yields the digit
+# groups in order (pattern text checked, any other pattern: unknown), int() of such a group parses, int.to_bytes(2, order),
+# bytes.join, and the utf-16 codec with errors="replace" (== the definition above).  Characters are an uninterpreted
+# injective `chr` (z3's own characters stop at U+2FFFF).
+# =====================================================================================
+U16_PATTERNS = {r"\\u(-?\d+)\??"}
+CHR = z3.Function("py.chr", I, S)
+CODE = z3.Function("py.ord", S, I)
+REPLACEMENT = CHR(z3.IntVal(0xFFFD))
+
+
+def utf16_text(units):
+    if not units:
+        return lit("")
+    u = units[0]
+    sur = z3.And(u >= 0xD800, u <= 0xDFFF)
+    one = cc(z3.If(sur, REPLACEMENT, CHR(u)), utf16_text(units[1:]))
+    if len(units) >= 2:
+        v = units[1]
+        pair = z3.And(u >= 0xD800, u <= 0xDBFF, v >= 0xDC00, v <= 0xDFFF)
+        return z3.If(pair, cc(CHR(0x10000 + (u - 0xD800) * 0x400 + (v - 0xDC00)), utf16_text(units[2:])), one)
+    return one
+
+
+def _chr_facts(terms):
+    """Instances of `chr is injective and yields one character` for every chr application in the given terms."""
+    seen, out, todo = set(), [], list(terms)
+    while todo:
+        t = todo.pop()
+        if t.get_id() in seen:
+            continue
+        seen.add(t.get_id())
+        if z3.is_app(t):
+            if t.decl().eq(CHR):
+                out += [z3.Length(t) == 1, CODE(t) == t.arg(0)]
+            todo.extend(t.children())
+    return out
+
+
+class RtfUnicodeExecutor(C02FullExecutor):
+    """Models needed by the escape decoder (pack-local): x & (2^k - 1) on an unbounded int as x mod 2^k, int.to_bytes,
+    bytes.join over parts of known length, bytes.decode('utf-16-le' / 'utf-16-be', errors='replace'), chr as CHR."""
+    MAX_RUN = 3
+
+    def add_vc(self, kind, label, pc, goal, note="", loc=""):
+        facts = _chr_facts(list(pc) + [goal, REPLACEMENT])
+        return super().add_vc(kind, label, list(pc) + facts + [REPLACEMENT == lit("\ufffd")], goal, note=note, loc=loc)
+
+    def binop(self, st, op, a, b, node, inplace=False):
+        if op == "BitAnd" and isinstance(a, VInt) and isinstance(b, VInt):
+            for x, m in ((a, b), (b, a)):
+                mc = m.const()
+                if mc is not None and mc > 0 and (mc & (mc + 1)) == 0 and x.const() is None and not z3.is_bv(x.t):
+                    return [(st, VInt(x.t % (mc + 1)))]
+        return super().binop(st, op, a, b, node, inplace)
+
+    def b_chr(self, st, args, kwargs, node):
+        v = args[0]
+        if isinstance(v, VInt):
+            t = ops_int_term(v)
+            st = self.fork_raise(st, z3.Or(t < 0, t > 0x10FFFF), "ValueError")
+            return [] if st is None else [(st, VStr(CHR(t)))]
+        return super().b_chr(st, args, kwargs, node)
+
+    def call_method(self, st, obj, name, args, kwargs, node):
+        if isinstance(obj, VInt) and name == "to_bytes":
+            n = (args[0] if args else kwargs.get("length", VInt(1))).const()
+            order = (args[1] if len(args) > 1 else kwargs.get("byteorder", VStr("big"))).const()
+            if n is None or order not in ("little", "big") or kwargs.get("signed") is not None:
+                raise X.Unsupported("int.to_bytes with symbolic length / order")
+            t = ops_int_term(obj)
+            st = self.fork_raise(st, z3.Or(t < 0, t >= 256 ** n), "OverflowError")
+            if st is None:
+                return []
+            items = [VInt((t / (256 ** k)) % 256) for k in range(n)]
+            return [(st, VBytes(items if order == "little" else items[::-1]))]
+        return super().call_method(st, obj, name, args, kwargs, node)
+
+    def bytes_method(self, st, obj, name, args, kwargs, node):
+        if name == "join" and len(args) == 1:
+            parts = self.concrete_items(st, args[0])
+            if parts is not None and all(isinstance(x, VBytes) for x in parts):
+                out = []
+                for k, x in enumerate(parts):
+                    out += (list(obj.items) if k else []) + list(x.items)
+                return [(st, VBytes(out))]
+            raise X.Unsupported("bytes.join over parts of unknown length")
+        if name == "decode":
+            enc = (args[0] if args else kwargs.get("encoding", VStr("utf-8"))).const()
+            err = (args[1] if len(args) > 1 else kwargs.get("errors", VStr("strict"))).const()
+            enc = enc.lower().replace("_", "-") if isinstance(enc, str) else None
+            if enc in ("utf-16-le", "utf-16-be", "utf-16le", "utf-16be") and err == "replace":
+                bs = [ops_int_term(x) for x in obj.items]
+                lo, hi = (0, 1) if enc.endswith("le") else (1, 0)
+                units = [bs[2 * k + lo] + 256 * bs[2 * k + hi] for k in range(len(bs) // 2)]
+                text = utf16_text(units)
+                return [(st, VStr(cc(text, REPLACEMENT) if len(bs) % 2 else text))]      # a dangling byte is not a character
+            raise X.Unsupported(f"bytes.decode({enc!r}, errors={err!r}) has no model here")
+        return super().bytes_method(st, obj, name, args, kwargs, node)
+
+
+def ops_int_term(v):
+    from pyvc import ops
+    return ops.int_term(v)
+
+
+RTF_UNICODE_IDS = ["returns#text-of-the-utf16-code-units[runs<=3]"]
+
+
+def rtf_unicode_obligations(repo, tier):
+    import ast
+    import copy
+    from pyvc import loader, verify
+    from pyvc.contracts import Registry
+    from pyvc.exctypes import Universe
+    pre = "C02/rtf_extractor.py::_decode_unicode_run/"
+    fq = f"{RTF}::_decode_unicode_run"
+    try:
+        mod = loader.module(RTF, repo)
+        fname = find_fn(RTF, "_decode_unicode_run", mentions=["findall"], nparams=1)
+        fnode = mod.functions.get(fname)
+        if fnode is None:
+            return {"obligations": _unknown(pre, RTF_UNICODE_IDS, "function not found", fq), "functions": [], "undecided": []}
+        # the pattern whose findall splits the run: a module-level re.compile of the \\uN pattern (any other text: unknown)
+        recv = {x.func.value.id for x in ast.walk(fnode) if isinstance(x, ast.Call) and isinstance(x.func, ast.Attribute) and x.func.attr in ("findall", "finditer")
+                and isinstance(x.func.value, ast.Name)}
+        if len(recv) != 1:
+            raise X.Unsupported(f"escape pattern not identified ({sorted(recv)})")
+        pat = next(iter(recv))
+        src = mod.assigns.get(pat) if hasattr(mod, "assigns") else None
+        ok = isinstance(src, ast.Call) and ast.unparse(src.func) in ("re.compile", "compile") and len(src.args) == 1 and not src.keywords \
+            and isinstance(src.args[0], ast.Constant) and src.args[0].value in U16_PATTERNS
+        if not ok:
+            raise X.Unsupported(f"pattern {pat} is not the \\uN pattern the model describes")
+        reg = Registry()
+        for c in contracts(reg):
+            reg.add(c)
+        reg = copy.copy(reg)
+        reg.fn = {k: v for k, v in reg.fn.items() if not k.startswith(fq)}
+        reg.module_consts = dict(reg.module_consts)
+        reg.module_consts[(RTF, pat)] = VExt("U16Pattern")
+        reg.method_models = dict(reg.method_models)
+
+        def findall(ex, st, obj, args, kwargs, node):
+            outs = []
+            for n in range(ex.MAX_RUN + 1):
+                s2 = st.fork()
+                groups = [z3.String(fresh_name(f"escape{k}.digits")) for k in range(n)]
+                for g in groups:
+                    s2.assume(T.INT_OK(g))
+                s2.ghost["u16"] = [T.INT_VAL(g) % 65536 for g in groups]
+                outs.append((s2, ex.new_list(s2, [VStr(g) for g in groups])))
+            return outs
+        reg.method_models[("U16Pattern", "findall")] = findall
+        P_STR = Maker(lambda ex, st, name: VStr(z3.String(name)), desc="str")
+        con = FnContract(target=fq, params=[(fnode.args.args[0].arg, P_STR)], returns=lambda c: VStr(utf16_text(c.st.ghost.get("u16", []))), raises=[])
+        ex = RtfUnicodeExecutor(mod, reg, Universe(repo))
+        ex.contract = con
+        ex.oid_prefix = pre[:-1]
+        got, _cov = verify.generate(ex, con, mod, fnode)
+        mine = []
+        for ob in got.values():
+            d = dict(verify.discharge(ob, None, getattr(ex, "witness_terms", {})), function=fq)
+            if d["id"].endswith("/returns"):
+                d["id"] = pre + RTF_UNICODE_IDS[0]
+                mine.append(d)
+            elif d["id"].endswith("/raises"):
+                d["id"] = pre + "raises#decoding-never-fails"
+                mine.append(d)
+        have = {o["id"] for o in mine}
+        mine += _unknown(pre, [l for l in RTF_UNICODE_IDS if pre + l not in have], "no verification condition for this clause", fq)
+        return {"obligations": mine, "functions": [], "undecided": []}
+    except Exception as e:  # noqa  (shape not recognised / outside the modelled subset: undecided, the native scope decides)
+        return {"obligations": _unknown(pre, RTF_UNICODE_IDS, f"{type(e).__name__}: {e}", fq), "functions": [], "undecided": []}
+
+
+# =====================================================================================
+# ODT body walk  --  odt_extractor.py::_append_full_text_from_element, container branches (text:list, table:table)
+#
+# Statement: no paragraph is lost.  A container branch is a nest of loops, each ranging over `x.iter(tag)` (x itself and
+# every descendant with that tag) or `x.findall(tag)` / `x.iterfind(tag)` (children with that tag).  The set of paragraphs
+# the nest reaches must contain every paragraph the document format places in the container (ODF 1.2, not the code):
+#   text:list    -- every text:p below a text:list-item below the list (items of nested lists, tables in items included)
+#   table:table  -- every text:p below a table:table-cell that is a child of a table:table-row below the table
+# (text:list-header and text:h inside items / cells are the recorded findings F20-odt-list-header / -heading-in-list.)
+# VC over an abstract tree (CHILD, strict DESC, transitive; TAG): `placed by the format` -> `reached by the nest`; the
+# witnesses of the nest range over the nodes the hypothesis names.  The nest is read off the real AST; a branch that is not a
+# plain nest whose innermost body appends the paragraph's text is `unknown` (the native odt scope decides).
+# (That a reached paragraph is emitted once too often is a different clause: recorded findings F20-odt-nested-*.)
+# =====================================================================================
+ODT = "sharepoint2text/parsing/extractors/open_office/odt_extractor.py"
+_NS_TEXT, _NS_TABLE = "urn:oasis:names:tc:opendocument:xmlns:text:1.0", "urn:oasis:names:tc:opendocument:xmlns:table:1.0"
+ODT_PLACED = {
+    "list": ("{%s}list" % _NS_TEXT, [("desc", "{%s}list-item" % _NS_TEXT), ("desc", "{%s}p" % _NS_TEXT)]),
+    "table": ("{%s}table" % _NS_TABLE, [("desc", "{%s}table-row" % _NS_TABLE), ("child", "{%s}table-cell" % _NS_TABLE), ("desc", "{%s}p" % _NS_TEXT)]),
+}
+ODT_COVER_IDS = [f"policy#every-paragraph-placed-in-a-{k}-is-reached" for k in ODT_PLACED]
+
+
+def _module_strs(mod):
+    """Module-level NAME -> str for names bound to string expressions over literal tables (f"{{{NS['text']}}}p")."""
+    import ast
+    env, out = {}, {}
+    for name, node in mod.assigns.items():
+        try:
+            env[name] = ast.literal_eval(node)
+        except Exception:  # noqa
+            pass
+    for name, node in mod.assigns.items():
+        if name in env:
+            continue
+        try:
+            v = eval(compile(ast.Expression(node), "<const>", "eval"), {"__builtins__": {}}, dict(env))   # noqa: S307 (no builtins, literals only)
+        except Exception:  # noqa
+            continue
+        env[name] = v
+    for name, v in env.items():
+        if isinstance(v, str):
+            out[name] = v
+    return out
+
+
+def _emits_text(body, cur, acc, mod, depth):
+    """The statements `body` do exactly this with the element named `cur`:  text = f(.. cur ..); [if text.strip():] acc.append(text)
+    -- directly, or through a module-level helper called with `cur` and `acc` whose body does (followed `depth` levels).
+    Anything else raises Unsupported."""
+    import ast
+    body = [x for x in body if not (isinstance(x, ast.Expr) and isinstance(x.value, ast.Constant))]          # docstring
+    if len(body) == 1 and isinstance(body[0], ast.Expr) and isinstance(body[0].value, ast.Call) and isinstance(body[0].value.func, ast.Name) \
+            and mod is not None and body[0].value.func.id in mod.functions and depth > 0:
+        call, h = body[0].value, mod.functions[body[0].value.func.id]
+        a = h.args
+        if a.vararg or a.kwarg or any(isinstance(x, ast.Starred) for x in call.args) or any(k.arg is None for k in call.keywords):
+            raise X.Unsupported("helper call with star arguments")
+        bound = dict(zip([x.arg for x in a.posonlyargs + a.args], call.args))
+        bound.update({k.arg: k.value for k in call.keywords})
+        names = {n: v.id for n, v in bound.items() if isinstance(v, ast.Name)}
+        pc = [n for n, v in names.items() if v == cur]
+        pa = [n for n, v in names.items() if v == acc]
+        if len(pc) != 1 or len(pa) != 1 or len(names) != len(bound):
+            raise X.Unsupported("helper does not receive the paragraph and the output list as plain names")
+        return _emits_text(h.body, pc[0], pa[0], mod, depth - 1)
+    texts = set()
+    for x in body:
+        if isinstance(x, ast.Assign) and len(x.targets) == 1 and isinstance(x.targets[0], ast.Name) and isinstance(x.value, ast.Call) \
+                and any(isinstance(y, ast.Name) and y.id == cur for y in ast.walk(x.value)):
+            texts.add(x.targets[0].id)
+            continue
+        stmts = [x]
+        if isinstance(x, ast.If) and not x.orelse and {y.id for y in ast.walk(x.test) if isinstance(y, ast.Name)} <= texts \
+                and ast.unparse(x.test) in {f"{t}.strip()" for t in texts} | {f"{t}" for t in texts}:
+            stmts = x.body
+        ok = len(stmts) == 1 and isinstance(stmts[0], ast.Expr) and isinstance(stmts[0].value, ast.Call) and isinstance(stmts[0].value.func, ast.Attribute) \
+            and stmts[0].value.func.attr == "append" and isinstance(stmts[0].value.func.value, ast.Name) and stmts[0].value.func.value.id == acc \
+            and len(stmts[0].value.args) == 1 and isinstance(stmts[0].value.args[0], ast.Name) and stmts[0].value.args[0].id in texts
+        if not ok:
+            raise X.Unsupported("innermost body is not `text = f(paragraph); if text.strip(): out.append(text)`")
+    if not texts:
+        raise X.Unsupported("innermost body does not take the paragraph's text")
+
+
+def _loop_nest(branch_body, root, acc, strs, mod=None):
+    """[(step, tag)] of a plain loop nest over the tree below `root` whose innermost body appends text of the innermost
+    loop variable to `acc`; raises Unsupported for any other shape."""
+    import ast
+    chain, cur, body = [], root, [x for x in branch_body if not (isinstance(x, ast.Return) and x.value is None)]
+
+    def step_of(it, cur):
+        if not (isinstance(it, ast.Call) and isinstance(it.func, ast.Attribute) and isinstance(it.func.value, ast.Name) and it.func.value.id == cur
+                and it.func.attr in ("iter", "findall", "iterfind") and len(it.args) == 1 and not it.keywords):
+            raise X.Unsupported("loop does not range over iter / findall of the enclosing element")
+        a = it.args[0]
+        tag = strs.get(a.id) if isinstance(a, ast.Name) else (a.value if isinstance(a, ast.Constant) and isinstance(a.value, str) else None)
+        if tag is None or (it.func.attr != "iter" and not tag.startswith("{")):
+            raise X.Unsupported("tag of a loop not resolved (or a path expression)")
+        return ("desc*" if it.func.attr == "iter" else "child", tag)
+    # the same nest written as one comprehension:  acc.extend(text for a in root.iter(A) for p in a.iter(P) if <text is not blank>)
+    if len(body) == 1 and isinstance(body[0], ast.Expr) and isinstance(body[0].value, ast.Call) and isinstance(body[0].value.func, ast.Attribute) \
+            and body[0].value.func.attr == "extend" and isinstance(body[0].value.func.value, ast.Name) and body[0].value.func.value.id == acc \
+            and len(body[0].value.args) == 1 and isinstance(body[0].value.args[0], (ast.GeneratorExp, ast.ListComp)):
+        comp = body[0].value.args[0]
+        for k, g in enumerate(comp.generators):
+            if not isinstance(g.target, ast.Name) or g.is_async or (g.ifs and k < len(comp.generators) - 1):
+                raise X.Unsupported("comprehension clause with a filter on an outer level")
+            chain.append(step_of(g.iter, cur))
+            cur = g.target.id
+        last = comp.generators[-1]
+        elt = ast.unparse(comp.elt)
+        uses_cur = lambda n: isinstance(n, ast.Call) and any(isinstance(y, ast.Name) and y.id == cur for y in ast.walk(n))
+        okf = not last.ifs
+        if len(last.ifs) == 1:
+            t = last.ifs[0]
+            inner = t.func.value if isinstance(t, ast.Call) and isinstance(t.func, ast.Attribute) and t.func.attr == "strip" and not t.args else t
+            if isinstance(inner, ast.NamedExpr) and isinstance(comp.elt, ast.Name) and inner.target.id == comp.elt.id and uses_cur(inner.value):
+                okf = True
+            elif uses_cur(inner) and ast.unparse(inner) == elt:
+                okf = True
+        if not okf or not (isinstance(comp.elt, ast.Name) or uses_cur(comp.elt)):
+            raise X.Unsupported("comprehension does not yield the paragraph's text under a blank test only")
+        return chain
+    while True:
+        if len(body) != 1 or not isinstance(body[0], ast.For) or body[0].orelse or not isinstance(body[0].target, ast.Name):
+            raise X.Unsupported("branch is not a plain loop nest")
+        f = body[0]
+        chain.append(step_of(f.iter, cur))
+        cur, body = f.target.id, f.body
+        if not any(isinstance(x, ast.For) for x in body):
+            break
+    _emits_text(body, cur, acc, mod, 2)
+    return chain
+
+
+def odt_cover_vc(placed, nest):
+    """(hypotheses, goal) of `placed by the format -> reached by the nest` over nodes e, s1..sk."""
+    NODE = z3.DeclareSort("OdtNode")
+    CHILD_, DESC_ = z3.Function("odt.child", NODE, NODE, B), z3.Function("odt.desc", NODE, NODE, B)
+    TAG_ = z3.Function("odt.tag", NODE, S)
+    e = z3.Const("container", NODE)
+    ss = [z3.Const(f"placed{k}", NODE) for k in range(len(placed))]
+    nodes = [e] + ss
+    hyps = []
+    for a in nodes:
+        hyps.append(z3.Not(DESC_(a, a)))
+        for b in nodes:
+            hyps.append(z3.Implies(CHILD_(a, b), DESC_(a, b)))
+            for c in nodes:
+                hyps.append(z3.Implies(z3.And(DESC_(a, b), DESC_(b, c)), DESC_(a, c)))
+    prev = e
+    for (step, tag), n in zip(placed, ss):
+        hyps += [CHILD_(prev, n) if step == "child" else DESC_(prev, n), TAG_(n) == lit(tag)]
+        prev = n
+    import itertools
+    alts = []
+    for combo in itertools.product(nodes, repeat=len(nest)):
+        if combo[-1] is not ss[-1]:
+            continue
+        prev, cs = e, []
+        for (step, tag), n in zip(nest, combo):
+            cs += [CHILD_(prev, n) if step == "child" else z3.Or(prev == n, DESC_(prev, n)), TAG_(n) == lit(tag)]
+            prev = n
+        alts.append(z3.And(cs))
+    return hyps, z3.Or(alts) if alts else z3.BoolVal(False)
+
+
+def odt_cover_obligations(repo, tier):
+    import ast
+    from pyvc import loader, verify
+    from pyvc.contracts import Registry
+    from pyvc.exctypes import Universe
+    pre = "C02/odt_extractor.py::_append_full_text_from_element/"
+    fq = f"{ODT}::_append_full_text_from_element"
+    try:
+        mod = loader.module(ODT, repo)
+        fname = find_fn(ODT, "_append_full_text_from_element", mentions=["tag", "append"], nparams=2)
+        fnode = mod.functions.get(fname)
+        if fnode is None:
+            return {"obligations": _unknown(pre, ODT_COVER_IDS, "function not found", fq), "functions": [], "undecided": []}
+        params = [a.arg for a in fnode.args.posonlyargs + fnode.args.args]
+        root, acc = params[0], params[1]
+        strs = _module_strs(mod)
+        tagvars = {t.id for x in ast.walk(fnode) if isinstance(x, ast.Assign) and isinstance(x.value, ast.Attribute) and x.value.attr == "tag"
+                   and isinstance(x.value.value, ast.Name) and x.value.value.id == root for t in x.targets if isinstance(t, ast.Name)}
+        is_tag = lambda n: (isinstance(n, ast.Name) and n.id in tagvars) or (isinstance(n, ast.Attribute) and n.attr == "tag" and isinstance(n.value, ast.Name) and n.value.id == root)
+        branches = {}
+        nested = {id(y) for f in ast.walk(fnode) if isinstance(f, (ast.For, ast.While, ast.FunctionDef, ast.Lambda)) and f is not fnode for y in ast.walk(f) if y is not f}
+        for x in ast.walk(fnode):            # `if tag == T:` statements and the arms of if / elif chains, outside loops
+            if isinstance(x, ast.If) and id(x) not in nested and isinstance(x.test, ast.Compare) and len(x.test.ops) == 1 and isinstance(x.test.ops[0], ast.Eq):
+                l, r = x.test.left, x.test.comparators[0]
+                c = r if is_tag(l) else (l if is_tag(r) else None)
+                v = None if c is None else (strs.get(c.id) if isinstance(c, ast.Name) else (c.value if isinstance(c, ast.Constant) else None))
+                if isinstance(v, str):
+                    if v in branches:
+                        branches[v] = None          # two branches for one tag: not the shape described here
+                    else:
+                        branches[v] = x
+        reg = Registry()
+        ex = EXECUTOR(mod, reg, Universe(repo))
+        ex.oid_prefix = pre[:-1]
+        out = []
+        for kind, (ctag, placed) in ODT_PLACED.items():
+            label = f"every-paragraph-placed-in-a-{kind}-is-reached"
+            br = branches.get(ctag)
+            try:
+                if br is None:
+                    raise X.Unsupported(f"no single branch `tag == <{ctag.rsplit('}', 1)[-1]}>` in the function")
+                nest = _loop_nest(br.body, root, acc, strs, mod)
+            except X.Unsupported as e:
+                out += _unknown(pre, ["policy#" + label], str(e), fq)
+                continue
+            hyps, goal = odt_cover_vc(placed, nest)
+            Executor_add = super(X.C02Executor, ex).add_vc          # plain VC: no text axioms needed
+            Executor_add("policy", label, hyps, goal, note="nest: " + " / ".join(f"{s} {t.rsplit('}', 1)[-1]}" for s, t in nest), loc=f"{ODT}:{br.lineno}")
+        for ob in ex.obls.values():
+            out.append(dict(verify.discharge(ob, None, {}), function=fq))
+        return {"obligations": out, "functions": [], "undecided": []}
+    except Exception as e:  # noqa
+        return {"obligations": _unknown(pre, ODT_COVER_IDS, f"{type(e).__name__}: {e}", fq), "functions": [], "undecided": []}
+
+
+EXTRA = [bounded_native, fragment_obligations, empty_element_obligations, rtf_unicode_obligations, odt_cover_obligations]
 
 
 def known_findings(kf, violations, repo, tier):
